@@ -14,21 +14,28 @@ import itertools
 from typing import Any, Callable, Iterable, Iterator, Optional
 
 RULE = (
-    "Exhaustive enumeration per record length L (quick 1..10, thorough 1..14) of every location whose "
-    "coordinates are integers of [0,L]: simple [s,e), origin-spanning 2-part [a,L)+[0,b) (b<=a, incl. "
-    "b==a = whole ring), 2-part multi-exon [a,b)+[c,d) (b<=c, incl. touching), 3-part multi-exon and "
-    "3-part origin-spanning (L<=8 quick / <=9 thorough), forward and reverse strand (reverse = Biopython "
-    "part order reversed); the same shapes on 'anchor grid' records (L=100,101 quick; +12,13,1000,1000001 "
-    "thorough) whose coordinates come from {0,1,L/4,L/2-1,L/2,L/2+1,3L/4,L-1,L}. Families: all unordered "
-    "pairs (overlap/contains both directions; distance on line and ring, both argument orders), every "
-    "offset -L-1..L+1 with and without wrap point, every extension distance 0..L+1 on linear and circular "
-    "records, connect of all multisets of 1..2 locations, of 3 (L<=8 quick / <=11 thorough) and of 4 "
-    "(L<=5 / <=6) contiguous locations in EVERY argument order plus idempotence, text round trip for "
-    "strands +,-,?,none and fuzzy ends, origin-bridging/split, make_forwards, remove_redundant_exons "
-    "(overlapping exons, L<=6), build_location_from_others, Feature.__lt__ on all triples (L<=5/6). "
-    "Thorough adds run.rng-seeded random locations/tuples (2..8 members) on L up to 10^7. A case is "
-    "non-trivial unless it is a pair of simple locations separated by >= 2 bases on both sides of the "
-    "ring, an offset of 0, or an extension by 0; distinct = distinct (family, L, locations, parameter)."
+    "Exhaustive per record length L (quick 1..10, thorough 1..14): every location with integer coordinates in "
+    "[0,L] of the shapes simple [s,e), origin-spanning [a,L)+[0,b) (b<=a; b==a is the whole ring), 2-part "
+    "multi-exon [a,b)+[c,d) (b<=c, touching included), 3-part multi-exon and 3-part origin-spanning (L<=7 quick "
+    "/ <=9 thorough), forward and reverse strand (reverse = Biopython part order reversed). The same shapes on "
+    "'anchor grid' records (L=100,101 quick; +12,13,1000,1000001 thorough) with coordinates from "
+    "{0,1,L/4,L/2-1,L/2,L/2+1,3L/4,L-1,L} (quick: 3-part shapes and multi-exon x multi-exon pairs on L=100 "
+    "only). Families: (pair/dist) all unordered pairs incl. multi-exon members "
+    "for L<=8 (thorough <=12) and grids, for larger L all pairs of contiguous locations plus multi-exon x "
+    "contiguous; 3-part x contiguous; overlap and containment in both directions, distance on line and ring in "
+    "both argument orders, also through Record (L<=6). (offset) every offset -L-1..L+1 with and without wrap "
+    "point (grid: offsets putting each part end on each anchor). (extend) every distance 0..L+1 on linear and "
+    "circular records (grid: distances around every coincidence). (connect) every multiset of 1, 2 contiguous "
+    "locations, of 3 (L<=6 quick / <=10 thorough, and the 7-anchor grid {0,1,L/2-1,L/2,L/2+1,L-1,L}) and of 4 "
+    "(L<=3 / <=5 in every order; quick L=4, thorough L=6 with rotations+reflections only) in EVERY argument order "
+    "plus idempotence of every distinct result; on a "
+    "line every pair and every 4th triple; a fixed stride sample of pairs with multi-exon members. (string) text "
+    "round trip with strands +,-,?,none, operators join/order, fuzzy ends on a third. (bridge) origin-bridging "
+    "test, split, make_forwards. (redundant) overlapping/nested exons, 2 parts L<=6, 3 parts L<=5. (build) "
+    "leader|core|tail style pieces L<=6. (order) Feature.__lt__ on all triples of contiguous locations L<=5 "
+    "(thorough 6). Thorough adds run.rng-seeded random locations and tuples of 2..8 members on L up to 10^7 with "
+    "coordinates biased to coincidences. A case is trivial when it is a pair of simple locations separated by "
+    ">= 2 bases both ways round, an offset of 0 or an extension by 0; distinct = distinct case."
 )
 EXHAUSTIVE = {"quick": True, "thorough": False}
 
@@ -609,6 +616,7 @@ def _eval_connect(case: dict) -> Outcome:
     verdict["connect-independent-of-argument-order"] = ""
     verdict["connect-idempotent"] = ""
     seen: dict[str, tuple] = {}
+    checked_twice: set[str] = set()
     for order in orders:
         items = [specs[i] for i in order]
         okc, got = _guard(lambda it=items: call(it))
@@ -640,7 +648,10 @@ def _eval_connect(case: dict) -> Outcome:
                 verdict["connect-covers-all-inputs"] = tag + f"got {_show(got)}"
             if bases != (hull,):
                 verdict["connect-line-exact-hull"] = tag + f"got {_show(got)}, hull [{hull[0]}:{hull[1]})"
-        # applying the operation twice
+        # applying the operation twice (once per distinct result: the other orders gave the same location)
+        if _show(got) in checked_twice:
+            continue
+        checked_twice.add(_show(got))
         ok2, again = _guard(lambda g=got: connect_locations([g], wrap_point=length if ring else None))
         if not ok2:
             verdict["connect-idempotent"] = tag + f"connect([{_show(got)}]) raised {again}"
@@ -841,9 +852,10 @@ def _f3_extend_keeps_introns(clause: str, case: dict) -> bool:
 
 
 def _f4_extend_origin_spanning_overrun(clause: str, case: dict) -> bool:
-    """Record.extend_location on a circular record, origin-spanning input [a,L)+..+[0,b): one end is extended
-    past the record edge again (b+d > L or a-d < 0) without the two ends meeting in the special first branch:
-    overlapping / more than two parts are returned."""
+    """Record.extend_location on a circular record, origin-spanning input [a,L)+..+[0,b), extended so far that
+    the two outer ends meet (2d >= a-b). 2-part inputs fail exactly when an end passes a record edge again
+    (b+d > L or a-d < 0) outside the special first branch; inputs with more parts can also keep an interior
+    exon next to the merged ends: overlapping / too many parts are returned."""
     if clause != "extend-result-well-formed" or case.get("fn") != "extend" or not case.get("circ"):
         return False
     spec, length, dist = case["loc"], case["L"], case["d"]
@@ -852,7 +864,8 @@ def _f4_extend_origin_spanning_overrun(clause: str, case: dict) -> bool:
     forward = _forward_order(spec)
     upper_start, lower_end = forward[0][0], forward[-1][1]
     if len(spec) > 2:
-        return upper_start - dist < 0 or lower_end + dist > length
+        # the two extended ends meet (this includes an end passing a record edge again)
+        return 2 * dist >= upper_start - lower_end
     first_branch = upper_start - dist < 0 and upper_start - dist + length <= lower_end + dist
     if first_branch:
         return False
@@ -918,10 +931,11 @@ FINDING_CLASSES: dict[str, Callable[[str, Any], bool]] = {
 
 def _bounds(tier: str) -> dict:
     if tier == "quick":
-        return {"L": 10, "pairs": 8, "three": 7, "triples": 7, "quads": 4, "quads_rot": 5,
-                "grids": [100, 101], "order": 5, "random_s": 0}
+        return {"L": 10, "pairs": 8, "three": 7, "triples": 6, "quads": 3, "quads_rot": 4,
+                "grids": [100, 101], "grids3": [100], "full_pair_grids": [100], "order": 5, "random_s": 0}
     return {"L": 14, "pairs": 12, "three": 9, "triples": 10, "quads": 5, "quads_rot": 6,
-            "grids": [12, 13, 100, 101, 1000, 1000001], "order": 6, "random_s": 90}
+            "grids": [12, 13, 100, 101, 1000, 1000001], "grids3": [12, 13, 100, 101],
+            "full_pair_grids": [12, 13, 100, 101, 1000, 1000001], "order": 6, "random_s": 45}
 
 
 def _units(tier: str) -> list[dict]:
@@ -931,11 +945,12 @@ def _units(tier: str) -> list[dict]:
     sizes = [(length, False) for length in range(1, bound["L"] + 1)] + [(g, True) for g in bound["grids"]]
     for length, grid in sizes:
         base = {"L": length, "grid": grid}
-        kind = "pairset" if grid or length <= bound["pairs"] else "arcpairs"
+        kind = "pairset" if (grid and length in bound["full_pair_grids"]) or \
+            (not grid and length <= bound["pairs"]) else "arcpairs"
         n_pair = len(_locs(kind, length, grid))
         for i in range(n_pair):
             units.append({**base, "fam": "pair", "set": kind, "i": i, "cost": 150 * (n_pair - i)})
-        with_three = (not grid and length <= bound["three"]) or (grid and length <= 101)
+        with_three = (not grid and length <= bound["three"]) or (grid and length in bound["grids3"])
         n_arcs = len(_locs("arcs", length, grid))
         if with_three:
             n_three = len(_locs("three", length, grid))
@@ -979,7 +994,7 @@ def _units(tier: str) -> list[dict]:
             units.append({**base, "fam": "redundant", "cost": 40 * 4000})
             units.append({**base, "fam": "build", "cost": 40 * 1000})
         if not grid and length <= bound["order"]:
-            n_ord = len(_locs("arcs2", length, grid))
+            n_ord = len(_locs("arcpairs", length, grid))
             for i in range(n_ord):
                 units.append({**base, "fam": "order", "i": i, "cost": 450 * (n_ord - i) * (n_ord - i + 1) // 2})
         if not grid and length <= 6:
@@ -1078,11 +1093,11 @@ def _cases_of(unit: dict) -> Iterator[dict]:
         three = _locs("three", length, grid) if (length <= 7 or grid) else []
         arcs = _locs("arcs", length, grid)
         pool = [m for m in multi if len(m) > 1]
-        if length > 7 and not grid:
-            pool = pool[::max(1, len(pool) // 60)]
-        extra = three[::max(1, len(three) // 40)] if three else []
+        if length > 5:
+            pool = pool[::-(-len(pool) // 70)]
+        extra = three[::-(-len(three) // 30)] if three else []
         for a in pool + extra:
-            for b in arcs[::max(1, len(arcs) // 30)] + pool[::max(1, len(pool) // 12)]:
+            for b in arcs[::-(-len(arcs) // 24)] + pool[::-(-len(pool) // 8)]:
                 yield {"fn": "connect", "L": length, "wrap": True, "locs": [a, b]}
                 if not _is_wrap(a) and not _is_wrap(b):
                     yield {"fn": "connect", "L": length, "wrap": False, "locs": [a, b]}
@@ -1131,7 +1146,7 @@ def _cases_of(unit: dict) -> Iterator[dict]:
             for mid in range(a + 1, b):
                 yield {"fn": "build", "L": length, "locs": [[[a, mid, 1]], [[mid, b, 1], [c, d, 1]]]}
     elif fam == "order":
-        locs = _locs("arcs2", length, grid)
+        locs = _locs("arcpairs", length, grid)
         i = unit["i"]
         for j in range(i, len(locs)):
             for k in range(j, len(locs)):
@@ -1282,11 +1297,13 @@ def _report(run: Any, case: dict) -> None:
         import traceback
         run.error(f"evaluator crashed on {case!r}: {err!r}\n{traceback.format_exc()}")
         return
-    key = None
+    counted = False
     for clause, ok, nontrivial, detail in outcome:
-        if key is None and nontrivial:
-            key = repr(case)
-        run.check(_label(clause, case), ok, case, nontrivial=nontrivial, detail=detail if not ok else "", key=key)
+        # the non-trivial key of a case is the same for all its clauses: register (and hash) it once
+        first = nontrivial and not counted
+        counted = counted or first
+        run.check(_label(clause, case), ok, case, nontrivial=first, detail=detail if not ok else "",
+                  key=repr(case) if first else None)
     if case["fn"] == "connect":
         run.count(max(0, 2 * len(set(itertools.permutations(range(len(case["locs"]))))) - 2)
                   if case.get("orders") != "rotations" else 4 * len(case["locs"]))
